@@ -87,6 +87,12 @@ func (p *Prog) addContractFile(path, pkg string) error {
 	for _, m := range cf.Macros {
 		p.Macros[m.Name] = m
 	}
+	if p.GlobalInvs == nil {
+		p.GlobalInvs = map[string][]*spec.Clause{}
+	}
+	for _, g := range cf.GlobalInvs {
+		p.GlobalInvs[g.Label] = append(p.GlobalInvs[g.Label], g)
+	}
 	return nil
 }
 
@@ -182,7 +188,7 @@ type splitVal struct {
 
 func (p *Prog) newVC(fn *ssa.Function, sp *spec.FuncSpec) *VC {
 	vc := &VC{P: p, Fn: fn, Spec: sp, globals: map[*ssa.Global]int{}, strLits: map[string]string{}, heapDecl: map[string]bool{},
-		counts: map[string]int{}, gvals: map[*ssa.Global]Term{}}
+		counts: map[string]int{}, gvals: map[*ssa.Global]Term{}, sums: map[string][]*sumInst{}, sumCache: map[string]*sumInst{}}
 	vc.tt = newTypeTab(vc)
 	return vc
 }
@@ -204,6 +210,21 @@ func (p *Prog) generateOne(fn *ssa.Function, sp *spec.FuncSpec, splits []splitVa
 	}()
 	for _, s := range splits {
 		vc.splitInfo += fmt.Sprintf("[%s=%d]", s.name, s.val)
+	}
+	if len(sp.Props) == 0 {
+		// a function that only refines fnspecs inherits their properties
+		for _, rn := range sp.Refines {
+			if fs := p.FnSpecs[rn]; fs != nil {
+				sp.Props = unionProps(sp.Props, fs.Props)
+			}
+		}
+	}
+	if len(sp.SafetyProp) == 0 {
+		for _, rn := range sp.Refines {
+			if fs := p.FnSpecs[rn]; fs != nil {
+				sp.SafetyProp = unionProps(sp.SafetyProp, fs.SafetyProp)
+			}
+		}
 	}
 	vc.curProps = sp.Props
 	vc.safeProps = sp.Props
@@ -228,6 +249,13 @@ func (p *Prog) generateOne(fn *ssa.Function, sp *spec.FuncSpec, splits []splitVa
 		params = append(params, t)
 		names[prm.Name()] = SV{T: t, Ty: prm.Type()}
 		vc.ModelVars = append(vc.ModelVars, n)
+		// type invariant of the fields reachable in one step from a struct pointer parameter
+		if et, ok := derefType(prm.Type()); ok {
+			if _, isStruct := et.Underlying().(*types.Struct); isStruct && tt.cells(et) <= 64 {
+				v := vc.load(st, et, PObj(t), POff(t))
+				vc.assume(Ne(PObj(t), IntLit(0)), tt.wf(et, v, st.Alloc))
+			}
+		}
 	}
 	var free []Term
 	for _, fv := range fn.FreeVars {
@@ -311,11 +339,50 @@ func (p *Prog) generateOne(fn *ssa.Function, sp *spec.FuncSpec, splits []splitVa
 		}
 		vc.assume(True, t)
 	}
+	// package invariants over never-reassigned globals (assumed; listed in the evidence)
+	if pkg != nil {
+		for _, g := range p.GlobalInvs[pkg.Path()] {
+			t, err := pre.evalBool(g.E)
+			if err != nil {
+				return nil, fmt.Errorf("%s:%d: %v", g.File, g.Line, err)
+			}
+			vc.assume(True, t)
+			vc.addAssumed("package invariant of " + pkg.Name() + ": " + g.Src)
+		}
+	}
 	// vacuity probe: the preconditions must be satisfiable
 	if o := vc.oblige("cover-requires", sp.Props, True, False, "preconditions satisfiable", relFile(sp.File)); o != nil {
 		o.ExpectSat = true
 		vc.cmds = vc.cmds[:len(vc.cmds)-1] // never assume false
 		o.AssumeIdx = -1
+	}
+	// the frame (own modifies clause plus those of refined fnspecs), evaluated in the entry state
+	var entryMods []modLoc
+	for _, r := range refs {
+		if r.fs.HasMod {
+			hasMod = true
+			modSpecs = append(modSpecs, r.fs)
+		}
+	}
+	if hasMod {
+		for _, ms := range modSpecs {
+			nm := names
+			for _, r := range refs {
+				if r.fs == ms {
+					nm = r.names
+				}
+			}
+			m, err := vc.evalMods(ms, &Env{vc: vc, names: nm, st: entry, old: entry, pkg: pkg})
+			if err != nil {
+				return vc, fmt.Errorf("%s:%d: %v", ms.File, ms.Line, err)
+			}
+			entryMods = append(entryMods, m...)
+		}
+		f.hasFrame = true
+		f.entryMods = entryMods
+		for _, ms := range modSpecs {
+			vc.frameProps = unionProps(vc.frameProps, ms.FrameProps)
+		}
 	}
 	if err := f.run(params, free, st, True); err != nil {
 		return vc, err
@@ -396,28 +463,10 @@ func (p *Prog) generateOne(fn *ssa.Function, sp *spec.FuncSpec, splits []splitVa
 			}
 			vc.oblige(kind, props, exitReach, t, c.Src, fmt.Sprintf("%s:%d", relFile(c.File), c.Line))
 		}
-		if r.fs.HasMod {
-			hasMod = true
-			modSpecs = append(modSpecs, r.fs)
-		}
 	}
 	// frame obligations
 	if hasMod {
-		var mods []modLoc
-		for _, ms := range modSpecs {
-			nm := names
-			for _, r := range refs {
-				if r.fs == ms {
-					nm = r.names
-				}
-			}
-			m, err := vc.evalMods(ms, &Env{vc: vc, names: nm, st: entry, old: entry, pkg: pkg})
-			if err != nil {
-				return vc, fmt.Errorf("%s:%d: %v", ms.File, ms.Line, err)
-			}
-			mods = append(mods, m...)
-		}
-		vc.frameObligations(entry, exitSt, exitReach, mods, sp)
+		vc.frameObligations("frame", entry, exitSt, exitReach, entryMods, sp)
 	}
 	// vacuity probe: the exit must be reachable
 	if o := vc.oblige("cover-exit", sp.Props, exitReach, False, "normal exit reachable", relFile(sp.File)); o != nil {
@@ -429,7 +478,7 @@ func (p *Prog) generateOne(fn *ssa.Function, sp *spec.FuncSpec, splits []splitVa
 }
 
 // frameObligations: every pre-existing cell outside the modifies set is unchanged at exit.
-func (vc *VC) frameObligations(entry, exit *State, guard Term, mods []modLoc, sp *spec.FuncSpec) {
+func (vc *VC) frameObligations(kindPfx string, entry, exit *State, guard Term, mods []modLoc, sp *spec.FuncSpec) {
 	// if the base changed somewhere (havoc-all on some path) every known key may have changed
 	keys := map[string]bool{}
 	for k := range exit.H {
@@ -442,9 +491,10 @@ func (vc *VC) frameObligations(entry, exit *State, guard Term, mods []modLoc, sp
 	}
 	baseChanged := exit.Base != entry.Base
 	if baseChanged {
-		for _, k := range []string{"I", "B", "P", "S", "T", "F", "C", "R", "ML"} {
+		for k := range vc.tt.kindSeen {
 			keys[k] = true
 		}
+		keys["ML"] = true
 	}
 	ks := make([]string, 0, len(keys))
 	for k := range keys {
@@ -483,7 +533,11 @@ func (vc *VC) frameObligations(entry, exit *State, guard Term, mods []modLoc, sp
 			}
 			cond = Implies(And(pre, Not(Or(cover...))), Eq(Select(Select(h1, o), j), Select(Select(h0, o), j)))
 		}
-		ob := vc.oblige("frame:"+sanitize(k), sp.Props, guard, cond, "modifies "+strings.Join(sp.ModSrc, ", "), fmt.Sprintf("%s:%d", relFile(sp.File), sp.Line))
+		fprops := sp.Props
+		if len(vc.frameProps) > 0 {
+			fprops = vc.frameProps
+		}
+		ob := vc.oblige(kindPfx+":"+sanitize(k), fprops, guard, cond, "modifies "+strings.Join(sp.ModSrc, ", "), fmt.Sprintf("%s:%d", relFile(sp.File), sp.Line))
 		if ob != nil {
 			// the skolem constants are local to this obligation: never assume it afterwards
 			vc.cmds = vc.cmds[:len(vc.cmds)-1]
@@ -535,11 +589,12 @@ func (vc *VC) Restrict(o *Obligation, src string, negate bool) (*Obligation, err
 	if vc.entryEnv == nil {
 		return nil, fmt.Errorf("no entry environment")
 	}
-	save := vc.cmds
+	save, saveSums, saveCache := vc.cmds, vc.sums, vc.sumCache
 	vc.cmds = nil
+	vc.sums, vc.sumCache = map[string][]*sumInst{}, map[string]*sumInst{}
 	t, err := vc.entryEnv.evalBool(e)
 	extra := vc.cmds
-	vc.cmds = save
+	vc.cmds, vc.sums, vc.sumCache = save, saveSums, saveCache
 	if err != nil {
 		return nil, err
 	}
